@@ -101,14 +101,32 @@ func (c03) Generate(r *engine.Rand, index int, tier string) *engine.Scenario {
 	}
 	t := c03Ops[index%len(c03Ops)]
 	g.ramOnly = true
+	afterJump := index%8 == 1
+	g.ioPtr = index%8 == 7
+	if afterJump {
+		// the tested instruction directly after a jump, call or return (conditional ones with both
+		// outcomes: the flags come through the stack), nothing in between
+		g.emitStackSetup()
+		g.emit16(0x01, uint16(r.Intn(16))<<4|uint16(r.Byte())<<8)
+		g.emit(0xc5, 0xf1)
+	}
 	if afterHalt {
 		// the tested instruction is the first one after the CPU left HALT (master enable clear, woken by
 		// a request raised some cycles later by the scheduler)
 		g.preOp = []byte{0x76}
 	}
-	off := g.emitUnit(t.op, t.cb, false)
+	off := -1
+	if afterJump && g.emitPair(engine.Pick(r, pairPrev), t.op, t.cb) {
+		off = g.marks[len(g.marks)-1]
+	}
+	if off < 0 {
+		afterJump = false
+		off = g.emitUnit(t.op, t.cb, false)
+	}
 	g.preOp = nil
 	g.ramOnly = false
+	ioPtr := g.ioPtr
+	g.ioPtr = false
 	g.filler(3)
 	g.finish()
 	lsScenario(sc, r, g)
@@ -120,6 +138,12 @@ func (c03) Generate(r *engine.Rand, index int, tier string) *engine.Scenario {
 		sc.Events = append(sc.Events, engine.Event{At: uint64(r.Intn(int(total) + 1)), K: "irq", A: uint16(r.Intn(5))})
 	}
 	sc.Cycles = total*3 + 64
+	if afterJump {
+		sc.Class = "stamped-after-jump"
+	}
+	if ioPtr {
+		sc.Class = "stamped-io-pointer"
+	}
 	if afterHalt {
 		sc.Class = "stamped-after-halt"
 		line := r.Intn(5)
